@@ -136,8 +136,10 @@ int dealign_msa(struct msa* msa)
                 if(msa->alnlen){
                         /* finalise_alignment replaced seq->seq by the gapped row:
                            take the gap characters out again */
+                        /* (sequences added after that alignment are not rows of it and can be
+                           longer than alnlen: go to the end of the string) */
                         int c = 0;
-                        for(j = 0; j < msa->alnlen && seq->seq[j];j++){
+                        for(j = 0; seq->seq[j];j++){
                                 if(seq->seq[j] != '-'){
                                         seq->seq[c] = seq->seq[j];
                                         c++;
